@@ -244,11 +244,16 @@ func opDiskFind(f []string) string {
 		}
 	}
 	be := false
+	strictok := true
 	if t, err := fileseq.NewFileSequencePad(real, st); err == nil {
 		be = t.Basename() == s.Basename() && t.Ext() == s.Ext()
+		if strict && t.Padding() != "" && s.ZFill() != t.ZFill() {
+			strictok = false
+		}
 	}
 	o.Add("be", showBool(be))
 	o.Add("exist", showBool(exist))
+	o.Add("strictok", showBool(strictok))
 	return o.String()
 }
 
